@@ -40,12 +40,14 @@ Fixpoint mask {A} (m : list bool) (l : list A) : list A :=
 (* ---- region predicates ------------------------------------------------------- *)
 
 (* htslib (tabix/csi query behind cyvcf2's vcf(region)): records whose
-   [pos, pos + len(REF) - 1] overlaps the 1-based closed interval *)
+   [pos, pos + len(REF) - 1] overlaps the 1-based closed interval; an inverted
+   interval (start > end) is empty *)
 Definition in_region_vcf (r : region) (v : variant) : bool :=
   let '(c, a, b) := r in
   (v_chrom v =? c)
   && match a with None => true | Some a' => a' <=? v_pos v + v_reflen v - 1 end
-  && match b with None => true | Some b' => v_pos v <=? b' end.
+  && match b with None => true | Some b' => v_pos v <=? b' end
+  && match a, b with Some a', Some b' => a' <=? b' | _, _ => true end.
 
 (* GenotypesPLINK._check_region: chrom == c and start <= pos and end >= pos *)
 Definition in_region_pgen (r : region) (v : variant) : bool :=
